@@ -293,13 +293,13 @@ impl VirtualSign<'_> {
 
             self.width = width;
             self.height = u32::from(height);
-            self.data_chunks += 1;
+            self.data_chunks = self.data_chunks.wrapping_add(1);
         } else if self.state == State::PixelsInProgress {
             if offset == Offset(0) {
                 self.flush_pixels();
             }
             self.pending_data.extend_from_slice(data);
-            self.data_chunks += 1;
+            self.data_chunks = self.data_chunks.wrapping_add(1);
         }
         None
     }
